@@ -28,11 +28,11 @@ CHECKS = {
    note="As C01. Set-order effects are only visible in the windowed-label harness (C06.order); float-valued statistics are outside.",
    technique="bounded symbolic execution (z3) of views/stats with symbolic labels, thresholds, order/degree/s parameters and attribute values"),
  "C07": dict(level=MC, ref="5/C07",
-   text="For all three classes and every small shape with symbolic labels, counter and attribute values (nested mutables at node, edge and network level): copy(), pickle round trip and same-class constructor give equal snapshots and leave the source unchanged; no mutable container is shared (structural containers only for the constructor route, as the property states nested independence for copy()); a nested in-place edit and any one mutator with symbolic arguments on either side are invisible on the other; both sides keep assigning fresh ids (C04 assertions).",
+   text="For all three classes and every small shape with symbolic labels, counter and attribute values (nested mutables at node, edge and network level): copy(), pickle round trip and same-class constructor give equal snapshots and leave the source unchanged; no mutable container is shared (structural containers only for the constructor route, as the property states nested independence for copy()); a nested in-place edit and any one mutator with symbolic arguments on either side are invisible on the other; both sides keep assigning fresh ids (C04 assertions). The equality harness also runs with a string and with a tuple as first node label / first edge id.",
    note="As C01; the symbolic run pickles scount, itertools.count itself is pickled in the concrete replays.",
    technique="bounded symbolic execution (z3): derive, edit one side symbolically, compare snapshots"),
  "C18": dict(level=MC, ref="5/C18",
-   text="Structural mutators are discovered by concrete probing of every public callable of the three classes and the in-place library functions; then on every small shape, after freeze() and on subhypergraph() results, each discovered mutator (dedicated symbolic-argument ops plus a generic recipe call, keyword and positional) leaves the structural snapshot unchanged on every path, and whenever the identical call with identical symbolic arguments changes an equal unfrozen twin it raises the library's error; is_frozen stays True; copy() is unfrozen, equal and editable without touching the original.",
+   text="Structural mutators are discovered by concrete probing of every public callable of the three classes and the in-place library functions; then on every small shape, after freeze() and on subhypergraph() results, each discovered mutator (dedicated symbolic-argument ops plus a generic recipe call, keyword and positional) leaves the structural snapshot unchanged on every path, and whenever the identical call with identical symbolic arguments changes an equal unfrozen twin it raises the library's error; is_frozen stays True; copy() is unfrozen, equal and editable without touching the original. The mutator alphabet is the union of what probing finds on the current tree and the pinned public API, so a change that hides a signature cannot shrink it.",
    note="As C01; library error = XGIError or IDNotFound; a public callable without recipe is listed in the evidence.",
    technique="bounded symbolic execution (z3) with twin runs (same symbolic arguments on frozen net and unfrozen twin)"),
  "C19": dict(level=MC, ref="5/C19",
@@ -64,7 +64,7 @@ CHECKS = {
    note="Reduced reach, stated: one small parameter tuple per function; networkx generators/layouts are stubbed (seed forwarding only); spectral_clustering (ARPACK start vector, float k-means) cannot be entered by the stubs and is outside the claim.",
    technique="bounded symbolic execution (z3) with stream-tagged uninterpreted RNG draws, two calls per path"),
  "C15": dict(level=MC, ref="5/C15",
-   text="On every hypergraph shape without repeated or empty edges within the bound, the three simpliciality measures (raw and normalised edit distance, mean face edit distance, simplicial fraction and the two derived scores) are compared with exhaustive subset enumeration; labels are unbounded orderable solver integers (each label order the Trie's sort can see is a path), members are listed in several orders, min_size in 1..4 and exclude_min_size are solver-chosen; scores in [0,1] or NaN and equal to 1 on downward-closed shapes. A second harness forks labels exhaustively over [-3,3] under real hashing.",
+   text="On every hypergraph shape without repeated or empty edges within the bound, the three simpliciality measures (raw and normalised edit distance, mean face edit distance, simplicial fraction and the two derived scores) are compared with exhaustive subset enumeration; labels are unbounded orderable solver integers (each label order the Trie's sort can see is a path), members are listed in several orders, min_size in 1..4 and exclude_min_size are solver-chosen; scores in [0,1] or NaN and equal to 1 on downward-closed shapes. A second harness forks labels exhaustively over [-3,3] under real hashing (also with equal labels of different numeric types); a third measures, replaces one edge on the same object (same node and edge counts) and measures again.",
    note="Oracle = brute-force enumeration on the concrete incidence shape; floats compared with tolerance 1e-9.",
    technique="bounded symbolic execution (z3) of the simpliciality code with symbolic labels against an exhaustive-enumeration oracle"),
  "C11": dict(level="other", ref="5/C11 (section 10.7)",
@@ -72,11 +72,11 @@ CHECKS = {
    note="Reduced reach, stated: the solver quantifies labels, ids and attribute values; the bytes on disk are modelled by contract during exploration (real only in replays). String-level behaviour of split/strip/find on labels containing delimiter, comment or whitespace characters is excluded by the property itself; JSON representability of exotic value types and numpy float formatting are outside.",
    technique="bounded symbolic execution (z3) of the real file writers/readers with the file boundary as a contract stub; concrete replay through real files"),
  "C12": dict(level="other", ref="5/C12",
-   text="For every hypergraph shape within the bound (isolated nodes, empty/duplicate/singleton edges included) incidence, adjacency (weighted/thresholded by s), degree vector, intersection profile, clique-motif matrix, adjacency tensor, order-d, multi-order and normalised Laplacians are compared entrywise through their returned index maps with brute-force definitions; symmetry, zero diagonal, zero row sums; sparse equals dense for every argument combination; degenerate cases (no edges, none of the requested order). Node labels and edge ids are unbounded solver integers, order/s/flags are solver-chosen.",
+   text="For every hypergraph shape within the bound (isolated nodes, empty/duplicate/singleton edges included) incidence, adjacency (weighted/thresholded by s), degree vector, intersection profile, clique-motif matrix, adjacency tensor, order-d, multi-order and normalised Laplacians are compared entrywise through their returned index maps with brute-force definitions; symmetry, zero diagonal, zero row sums; sparse equals dense for every argument combination; degenerate cases (no edges, none of the requested order). Node labels and edge ids are unbounded solver integers, order/s/flags are solver-chosen. Every shape is also reached through a history on one object (complementary incidence, every matrix function called once, then morphed through the public API with unchanged node and edge counts).",
    note="Reduced reach, stated: the numeric kernels are scipy/numpy C code, so the solver quantifies only the labelling and the small integer/boolean parameters; shapes are enumerated. Positive semidefiniteness is not decided (follows from symmetry and the B^T B form).",
    technique="bounded symbolic execution (z3) over labels and parameters with enumerated shapes; brute-force matrix oracles"),
  "C14": dict(level="other", ref="5/C14",
-   text="Per shape (disconnected, isolated nodes, singletons, multi-edges, nested edges) with symbolic labels: connected components, is_connected, component count, largest component and a symbolic node's component against networkx on the node-edge bipartite graph; single-source shortest path lengths from a symbolic source against BFS in the clique expansion (inf exactly across components, symmetry); clustering coefficient against nx.clustering of the projection; to_graph, s-line graph with its three weight modes (s solver-chosen), bipartite graph and encapsulation DAG against definitions evaluated by the harness.",
+   text="Per shape (disconnected, isolated nodes, singletons, multi-edges, nested edges) with symbolic labels: connected components, is_connected, component count, largest component and a symbolic node's component against networkx on the node-edge bipartite graph; single-source shortest path lengths from a symbolic source against BFS in the clique expansion (inf exactly across components, symmetry); clustering coefficient against nx.clustering of the projection; to_graph, s-line graph with its three weight modes (s solver-chosen), bipartite graph and encapsulation DAG against definitions evaluated by the harness. Small shapes are also reached through a history on one object after every algorithm ran once on the complementary incidence.",
    note="Reduced reach, stated: shapes enumerated; the solver quantifies labels, source node, s, weight mode, subset_types. networkx is the independent oracle. Exact link set of the 'empirical' encapsulation DAG is outside.",
    technique="bounded symbolic execution (z3) of xgi's graph algorithms on symbolic labels against networkx on harness-built expansions"),
  "C08": dict(level="other", ref="5/C08",
